@@ -675,6 +675,22 @@ func runC07(w *World, r *Report) {
 					okd = true
 				}
 			}
+			// … or the reader itself where the consumer's own unpacking is known to take it (and check it chunk by chunk
+			// where a check is due): under unpackStreamReader[T](reader) having answered ok
+			if p, isP := returnedValue(ret, 0).(*ssa.Parameter); isP && !okd {
+				okd = hasGuard(ret.Block(), func(g guard) bool {
+					ex, ok := g.cond.(*ssa.Extract)
+					if !ok || ex.Index != 1 || !g.pol {
+						return false
+					}
+					c, ok := ex.Tuple.(*ssa.Call)
+					if !ok || len(c.Call.Args) != 1 || c.Call.Args[0] != ssa.Value(p) {
+						return false
+					}
+					sc := staticCallee(c)
+					return sc != nil && origin(sc).Name() == "unpackStreamReader"
+				})
+			}
 			r.Check(okd, "C07.converter-is-checker", fmt.Sprintf("defaultStreamConverter: return #%d hands back the checking wrapper", n), ret.Pos(), "the returned reader derives from StreamReaderWithConvert(…, v.(T))",
 				"a stream can leave the run-time checker as it came (a fast path on the reader's chunk type, nil-ness, …): the chunk type of the OBJECT travelling over an interface-declared edge is whatever the producer made — a pass-through or a sub-graph with an `any` input forwards a StreamReader[string] untouched — so a non-assignable stream reaches the concretely typed consumer and panics there in Stream / Transform mode while Invoke reports the ordinary 'runtime type check fail' error")
 		})
